@@ -1291,6 +1291,8 @@ def rootfinder_round6(ctx):
     _run_oracles(ctx, 'rootfinder-results-owned', 'search:returned-array-not-owned-by-caller', cases)
     cases = [(('GaussianKDE', 'percent_point', meth), 'kde_ppf_lanes_replay', (meth,)) for meth in ('bisect', 'chandrupatla')]
     _run_oracles(ctx, 'kde-ppf-lanes', 'search:lane-solved-for-another-target', cases)
+    cases = [(('GaussianKDE', 'percent_point', meth), 'kde_ppf_float32_replay', (meth,)) for meth in ('bisect', 'chandrupatla')]
+    _run_oracles(ctx, 'kde-ppf-float32', 'search:lane-not-solved-to-tolerance:float32', cases)
 
 
 def kde_ppf_lanes_replay(method):
@@ -1357,3 +1359,171 @@ def plot_row_index(ctx, quick=True):
     kinds = ('filtered', 'strings', 'duplicated') if quick else ('filtered', 'shifted', 'strings', 'duplicated', 'reversed', 'timestamps', 'multiindex')
     cases = [((fn, k), 'plot_row_index_replay', (fn, k)) for fn in ('scatter_2d', 'scatter_3d', 'compare_2d', 'compare_3d') for k in kinds]
     _run_oracles(ctx, 'plot-row-index', 'plot-rows:row-index', cases)
+
+
+
+# ----------------------------------------------------------------------------------------------------------------------
+# round 7 (two cooperating sites): containers of the training table, fitted candidates, the independence member, float32
+# ----------------------------------------------------------------------------------------------------------------------
+def gm_fit_container_replay(kind):
+    """the same numbers as a DataFrame and as a plain 2-d ndarray: same fitted correlation (tables with a constant column included)"""
+    import pandas as pd
+    from copulas.multivariate import GaussianMultivariate
+    from copulas.univariate import GaussianUnivariate
+    rs = np.random.RandomState(137)
+    n = 90
+    a = rs.normal(0, 1, n)
+    b = 0.8 * a + rs.normal(0, 0.5, n)
+    cols = {'plain': [a, b, rs.normal(0, 1, n)], 'constant-last': [a, b, np.full(n, 2.5)], 'constant-first': [np.full(n, -1.0), a, b],
+            'constant-middle': [a, np.full(n, 7.0), b, rs.normal(2, 1, n)], 'integer-constant': [a, b, np.full(n, 3)]}[kind]
+    A = np.column_stack(cols).astype(float)
+    with _default_ambient():
+        outs = []
+        for tab in (pd.DataFrame(A, columns=[f'c{i}' for i in range(A.shape[1])]), A.copy(), np.asfortranarray(A)):
+            m = GaussianMultivariate(distribution=GaussianUnivariate)
+            m.fit(tab)
+            outs.append(np.asarray(m.to_dict()['correlation'], dtype=float))
+        k = A.shape[1]
+        labelled = []
+        for lab_name, labs in (('integer labels 1..k', list(range(1, k + 1))), ('integer labels rotated (k-1, 0, 1, ..)', [k - 1] + list(range(k - 1))),
+                               ('mixed labels', ['a', 0, 1, 2][:k]), ('reversed integer labels', list(range(k))[::-1])):
+            m = GaussianMultivariate(distribution=GaussianUnivariate)
+            m.fit(pd.DataFrame(A, columns=labs))
+            labelled.append((f'a DataFrame with {lab_name}', np.asarray(m.to_dict()['correlation'], dtype=float)))
+    for nm, o in [('a C-ordered ndarray', outs[1]), ('a Fortran-ordered ndarray', outs[2])] + labelled:
+        if o.shape != outs[0].shape or not np.allclose(o, outs[0], rtol=1e-9, atol=1e-12):
+            return (f'GaussianMultivariate fitted on {nm} ({kind}) has the correlation {o.round(4).tolist()}; fitted on the same numbers as a DataFrame with string labels '
+                    f'{outs[0].round(4).tolist()}')
+    return None
+
+
+def gm_fit_container(ctx):
+    _run_oracles(ctx, 'gm-fit-container', 'search:fit-depends-on-container',
+                 [((k,), 'gm_fit_container_replay', (k,)) for k in ('plain', 'constant-last', 'constant-first', 'constant-middle', 'integer-constant')])
+
+
+def fitted_candidate_replay(how):
+    """a candidate given as an INSTANCE that was fitted before (or rebuilt by from_dict) competes with a fresh fit to the NEW data: the selected
+    model has the smallest KS distance among fresh fits of the candidate classes"""
+    import pandas as pd
+    from scipy.stats import kstest
+    from copulas.multivariate import GaussianMultivariate
+    from copulas.univariate import GaussianUnivariate, UniformUnivariate, Univariate
+    from copulas.univariate.selection import select_univariate
+    rs = np.random.RandomState(139)
+    old, new = rs.normal(50.0, 2.0, 200), rs.normal(0.0, 1.0, 300)
+    with _default_ambient():
+        g = GaussianUnivariate()
+        g.fit(old)
+        if how.endswith('from_dict'):
+            g = Univariate.from_dict(g.to_dict())
+        cands = [g, UniformUnivariate()]
+        best = {}
+        for cls in (GaussianUnivariate, UniformUnivariate):
+            f = cls()
+            f.fit(new)
+            best[cls.__name__] = float(kstest(new, f.cdf)[0])
+        want = min(best, key=best.get)
+        if how.startswith('select_univariate'):
+            got = select_univariate(new, cands)
+            if not getattr(got, 'fitted', False):       # the selection returns a new instance of the best class; its user fits it
+                got.fit(new)
+        elif how.startswith('Univariate'):
+            u = Univariate(candidates=cands)
+            u.fit(new)
+            got = u._instance
+        else:
+            m = GaussianMultivariate(distribution=Univariate(candidates=cands))
+            m.fit(pd.DataFrame({'x': new, 'y': rs.normal(size=300)}))
+            got = m.univariates[0]._instance
+        ks = float(kstest(new, got.cdf)[0])
+    if type(got).__name__ != want or ks > best[want] + 1e-9:
+        return (f'{how}: candidates [GaussianUnivariate instance fitted earlier on N(50, 2), UniformUnivariate()] on N(0, 1) data: selected '
+                f'{type(got).__name__} with KS {ks:.4f}; a fresh {want} has KS {best[want]:.4f} (all: {best})')
+    return None
+
+
+def fitted_candidate(ctx):
+    hows = ('select_univariate', 'Univariate', 'GaussianMultivariate', 'select_univariate:from_dict', 'Univariate:from_dict')
+    _run_oracles(ctx, 'fitted-candidate', 'oracle:best-ks-not-minimal:fitted-candidate', [((h,), 'fitted_candidate_replay', (h,)) for h in hows])
+
+
+def gumbel_independence_member_replay(meth, how):
+    """Gumbel with theta exactly 1 (tau = 0, the closed end of its domain) IS the independence copula, through every method and every way
+    of obtaining the object"""
+    from copulas.bivariate import Bivariate, Gumbel
+    X = _biv_batch('cumulative_distribution' if meth == 'cumulative_distribution' else 'probability_density')
+    u, v = X[:, 0], X[:, 1]
+    with _default_ambient():
+        if how == 'attributes':
+            c = Bivariate(copula_type='gumbel', random_state=3)
+            c.theta, c.tau = 1.0, 0.0
+        elif how == 'from_dict':
+            c = Bivariate.from_dict({'copula_type': 'GUMBEL', 'theta': 1.0, 'tau': 0.0})
+            c.set_random_state(3)
+        elif how == 'compute_theta':
+            c = Gumbel(random_state=3)
+            c.tau = 0
+            c.theta = c.compute_theta()
+        else:
+            c = Bivariate(copula_type='gumbel', random_state=3)
+            c.theta, c.tau = 1, 0
+        if meth == 'sample':
+            from scipy.stats import kendalltau
+            S = np.asarray(c.sample(4000), dtype=float)
+            t = float(kendalltau(S[:, 0], S[:, 1])[0])
+            if abs(t) > 0.08:        # Hoeffding: P(|tau_n| > 0.08) < 1e-9 for n = 4000 under independence
+                return f'Gumbel theta = 1 ({how}): sample(4000) has Kendall tau {t:.3f}; the model is the independence copula (tau = 0)'
+            return None
+        got = np.asarray(c.percent_point(u.copy(), v.copy()) if meth == 'percent_point' else getattr(c, meth)(X.copy()), dtype=float)
+    want = {'cumulative_distribution': u * v, 'partial_derivative': u, 'probability_density': np.ones_like(u), 'log_probability_density': np.zeros_like(u),
+            'percent_point': u}[meth]
+    if got.shape != want.shape or not np.allclose(got, want, rtol=1e-9, atol=1e-9):
+        k = int(np.nanargmax(np.abs(got - want))) if got.shape == want.shape else 0
+        return (f'Gumbel theta = 1 ({how}): {meth} at (u, v) = ({u[k]}, {v[k]}) is {got.ravel()[k]!r}; the independence copula gives {want[k]!r}')
+    return None
+
+
+def gumbel_independence_member(ctx, methods):
+    cases = [((m, h), 'gumbel_independence_member_replay', (m, h)) for m in methods for h in ('attributes', 'from_dict', 'compute_theta', 'integer-theta')]
+    _run_oracles(ctx, 'gumbel-theta1', 'search:gumbel-theta1-not-independence', cases)
+
+
+def select_float32_replay(fam):
+    """select_copula on the same pseudo-observations stored as float32: the same family, tau and theta up to the rounding of the data"""
+    from copulas.bivariate import select_copula
+    with _default_ambient():
+        X = _copula_table(fam, 0.5, 1500, 17)
+        X32 = X.astype(np.float32)
+        ref = select_copula(X32.astype(np.float64))
+        try:
+            got = select_copula(X32)
+        except Exception as ex:
+            return (f'select_copula raises {type(ex).__name__} ({str(ex)[:80]}) on float32 pseudo-observations drawn from a {fam} copula; on the same numbers as '
+                    f'float64 it returns {type(ref).__name__}')
+    # scipy's kendalltau answers in the precision of its input: tau / theta agree to single precision
+    if type(got) is not type(ref) or abs(float(got.tau) - float(ref.tau)) > 1e-6 or abs(float(got.theta) - float(ref.theta)) > 1e-5 * (1 + abs(float(ref.theta))):
+        return (f'select_copula on float32 data returns {type(got).__name__}(tau={float(got.tau)!r}, theta={float(got.theta)!r}); on the same numbers as float64 '
+                f'{type(ref).__name__}(tau={float(ref.tau)!r}, theta={float(ref.theta)!r})')
+    return None
+
+
+def select_float32(ctx):
+    _run_oracles(ctx, 'select-float32', 'search:select-copula:float32', [((f,), 'select_float32_replay', (f,)) for f in ('clayton', 'gumbel', 'frank')])
+
+
+def kde_ppf_float32_replay(method):
+    """probabilities stored as float32: every lane is solved to the solver's tolerance for the (rounded) target it was given"""
+    from copulas.univariate import GaussianKDE
+    with _default_ambient():
+        k = GaussianKDE()
+        k.fit(_uni_data() + 100.0)
+        u32 = np.array([0.62, 0.07, 0.41, 0.2, 0.93, 0.3, 0.77, 0.55, 0.011, 0.987], dtype=np.float32)
+        ref = np.asarray(k.percent_point(u32.astype(np.float64), method=method), dtype=float)
+        got = np.asarray(k.percent_point(u32, method=method), dtype=float)
+    tol = 2e-8 if method == 'chandrupatla' else 2e-7
+    if got.shape != ref.shape or not np.allclose(got, ref, rtol=0, atol=tol):
+        j = int(np.nanargmax(np.abs(got - ref)))
+        return (f'GaussianKDE.percent_point(method={method!r}) on float32 probabilities: lane {j} = {got[j]!r}; the same target held in float64 gives {ref[j]!r} '
+                f'(|difference| {abs(got[j] - ref[j]):.3g}, allowed {tol:g})')
+    return None
